@@ -1,2 +1,3 @@
+import MaddyVerif.Props.C01
 import MaddyVerif.Props.C16
 import MaddyVerif.Props.C17
